@@ -694,6 +694,11 @@ func (in *interp) builtin(name string, a []any) Res {
 		}
 		cp := append([]any{}, arr...)
 		bad := false
+		for _, x := range cp {
+			if n, isN := x.(*core.Num); isN && !numOK(n) {
+				bad = true // also in a one-element array, which the comparison below never looks at
+			}
+		}
 		sort.SliceStable(cp, func(i, j int) bool {
 			if kind == "string" {
 				return cp[i].(string) < cp[j].(string)
